@@ -489,6 +489,7 @@ class WsgiApplication(HttpBase):
             logger.exception(e)
             p_ctx.out_error = Fault('Server', get_fault_string_from_exception(e))
             p_ctx.transport.resp_code = None
+            p_ctx.fire_event('method_exception_object')
             return self.handle_error(p_ctx, others, p_ctx.out_error,
                                                                  start_response)
 
